@@ -322,6 +322,11 @@ where
             }
         }
     };
+    // programmatic construction: no parser in front of the context's global checks
+    let from_ast = guarded(std::panic::AssertUnwindSafe(|| {
+        crate::astbuild::build::<Dk, Ctx>(f, world, &|k: &crate::frag::KeyRef| Dk::from_str(&crate::frag::Names::key(world, k)).ok()).is_ok()
+    }));
+    judge(rep, "Miniscript::from_ast", from_ast, false, false);
     // miniscript entry points
     judge(rep, "Miniscript::from_str", guarded(|| Miniscript::<Dk, Ctx>::from_str(&ms).is_ok()), true, true);
     judge(rep, "Miniscript::from_str_insane", guarded(|| Miniscript::<Dk, Ctx>::from_str_insane(&ms).is_ok()), true, false);
